@@ -284,7 +284,10 @@ def gen_cm(rng, axis_keys, valid=True):
     n = min(n, len(pool))
     axes = rng.sample(pool, n)
     quals = []
-    for q in rng.sample(["within", "over", "where", "comment"], rng.choice([0, 0, 1, 2])):
+    # a climatological qualifier on a single domain axis makes cfdm flag the coordinates of that
+    # axis as climatological, which it refuses for coordinates without reference-time units
+    clim_ok = not (n == 1 and axes[0] in axis_keys)
+    for q in rng.sample((["within", "over"] if clim_ok else []) + ["where", "comment"], rng.choice([0, 0, 1, 2])):
         quals.append([q, rng.choice(["years", "days", "land", "sea", "note"])])
     r = rng.random()
     if r < 0.5:
@@ -837,6 +840,8 @@ def p_field(rng, f, which=None):
         g["axes"].append(["domainaxis88", rng.choice([1, 2, 3])])
         return g, "axis_extra"
     if which.startswith("cm_"):
+        if not g["isfield"]:
+            return None          # a domain holds no cell methods
         if which == "cm_add":
             g["cms"].append(["cellmethod77", gen_cm(rng, [a for a, _ in g["axes"]])])
             return g, which
@@ -1393,7 +1398,7 @@ def run(chk, model_ok):
     done = [(c, r) for c, r in zip(allc, rows) if r is not None]
     build_errors = [(c, r) for c, r in done if r["exc"] and str(r["exc"]).startswith("BUILD:")]
     done = [(c, r) for c, r in done if not (r["exc"] and str(r["exc"]).startswith("BUILD:"))]
-    if len(build_errors) > max(20, len(allc) // 50):
+    if len(build_errors) > max(20, len(allc) // 25):
         c, r = build_errors[0]
         chk.fail("correspondence", "build-errors", f"{len(build_errors)} descriptions were refused by the public API, e.g. {r}",
                  {"correspondence": "drive/c05.py", "input": c})
